@@ -222,3 +222,337 @@ Proof.
   - intros [[t' rc] [E H]]. cbn in E. subst. now exists rc.
   - intros [rc H]. exists (t, rc). now split.
 Qed.
+
+(* ---- updates of association lists as maps -------------------------------------------------- *)
+Definition amap {A} (f : N -> A -> A) (l : list (N * A)) : list (N * A) :=
+  map (fun x => (fst x, f (fst x) (snd x))) l.
+
+Lemma amap_id {A} (l : list (N * A)) : amap (fun _ b => b) l = l.
+Proof. unfold amap. induction l as [|[k a] l IH]; cbn; [reflexivity|now f_equal]. Qed.
+
+Lemma upd_amap {A} r (y : A) l : NoDup (map fst l) ->
+  upd r y l = amap (fun k b => if k =? r then y else b) l.
+Proof.
+  unfold amap. induction l as [|[k a] l IH]; cbn; intro Hnd; [reflexivity|].
+  inversion Hnd as [|k' l' Hk Hnd']; subst.
+  destruct (N.eqb_spec k r) as [->|Hn].
+  - f_equal. clear IH Hnd Hnd'. induction l as [|[k a'] l IH]; cbn; [reflexivity|].
+    cbn in Hk. destruct (N.eqb_spec k r) as [->|Hn]; [exfalso; apply Hk; now left|].
+    f_equal. apply IH. intro H. apply Hk. now right.
+  - f_equal. now apply IH.
+Qed.
+
+Lemma F2_amap {A B} (P P' : N * A -> N * B -> Prop) f g l sl :
+  Forall2 P l sl ->
+  (forall x y, In x l -> In y sl -> P x y ->
+               P' (fst x, f (fst x) (snd x)) (fst y, g (fst y) (snd y))) ->
+  Forall2 P' (amap f l) (amap g sl).
+Proof.
+  unfold amap. induction 1 as [|x y l sl Hp Hf IH]; cbn; intro Hi; [constructor|].
+  constructor.
+  - apply (Hi x y); [left; reflexivity|left; reflexivity|exact Hp].
+  - apply IH. intros x' y' Hx Hy. apply (Hi x' y'); right; assumption.
+Qed.
+
+Lemma F2_keys {A B} (P : N * A -> N * B -> Prop) l sl :
+  (forall x y, P x y -> fst x = fst y) -> Forall2 P l sl -> map fst l = map fst sl.
+Proof.
+  intro Pk. induction 1 as [|x y l sl Hp Hf IH]; cbn; [reflexivity|].
+  f_equal; [now apply Pk|exact IH].
+Qed.
+
+Lemma in_amap {A} (f : N -> A -> A) k z l : In (k, z) (amap f l) -> exists a, In (k, a) l /\ z = f k a.
+Proof.
+  unfold amap. rewrite in_map_iff. intros [[k' a] [E H]]. cbn in E. injection E as -> <-.
+  now exists a.
+Qed.
+
+Lemma map_fst_amap {A} (f : N -> A -> A) l : map fst (amap f l) = map fst l.
+Proof. unfold amap. rewrite map_map. cbn. reflexivity. Qed.
+
+Lemma delN_notin t l : ~ In t l -> delN t l = l.
+Proof.
+  unfold delN. induction l as [|a l IH]; cbn; intro H; [reflexivity|].
+  destruct (N.eqb_spec a t) as [->|Hn]; [exfalso; apply H; now left|].
+  cbn. f_equal. apply IH. intro Hin. apply H. now right.
+Qed.
+
+Lemma del_notin {A} t (l : list (N * A)) : ~ In t (map fst l) -> del t l = l.
+Proof.
+  induction l as [|[k a] l IH]; cbn; intro H; [reflexivity|].
+  destruct (N.eqb_spec k t) as [->|Hn]; [exfalso; apply H; now left|].
+  f_equal. apply IH. intro Hin. apply H. now right.
+Qed.
+
+Lemma length_del {A} t (x : A) l : NoDup (map fst l) -> lookup t l = Some x ->
+  length (del t l) = pred (length l).
+Proof.
+  induction l as [|[k a] l IH]; cbn; intros Hnd Hl; [discriminate|].
+  inversion Hnd as [|k' l' Hk Hnd']; subst.
+  destruct (N.eqb_spec k t) as [->|Hn].
+  - now rewrite del_notin.
+  - cbn. rewrite (IH Hnd' Hl). destruct l as [|y l]; [discriminate|reflexivity].
+Qed.
+
+Lemma store_eta s : mkStore (alive s) (done s) (srecs s) (snrec s) (sncall s) = s.
+Proof. now destruct s. Qed.
+
+Lemma heap_eta h : mkHeap (hc h) (vms h) (recs h) (nrec h) (ncall h) (ninst h) (tmp h) = h.
+Proof. now destruct h. Qed.
+
+Lemma tracked_live h s xs : R h s xs ->
+  (forall t rc, In (t, rc) (vms h) -> live (hc h) rc) /\
+  (forall r a k, In (r, mkRec a (Some k)) (recs h) -> live (hc h) k) /\
+  (forall c rf, In (c, rf) xs -> live (hc h) c).
+Proof.
+  intro HR. repeat split.
+  - intros t rc H. apply (r_vms _ _ _ HR) in H. unfold live. congruence.
+  - intros r a k. generalize (r_recs _ _ _ HR). generalize (recs h) (srecs s).
+    induction 1 as [|x y l sl Hp Hf IH]; intro H; [destruct H|].
+    destruct H as [->|H]; [|now apply IH].
+    destruct Hp as (_ & _ & Hs). cbn in Hs. destruct (sslot (snd y)); [|destruct Hs].
+    unfold cell_ok in Hs. unfold live. congruence.
+  - intros c rf H. apply (r_xs _ _ _ HR) in H. unfold cell_ok in H. unfold live. congruence.
+Qed.
+
+(* a cell that is not touched keeps satisfying its reference when the result map is unchanged *)
+Lemma cell_ok_frame c c' s s' k rf :
+  done s' = done s -> get (cells c') k = get (cells c) k -> cell_ok c s k rf -> cell_ok c' s' k rf.
+Proof. unfold cell_ok, sref_val. intros -> ->. auto. Qed.
+
+Ltac sp := cbn [hc vms recs nrec ncall ninst tmp alive done srecs snrec sncall fst snd].
+
+(* ---- a thread is deleted ------------------------------------------------------------------ *)
+Lemma vm_kill_R t h s xs : R h s xs -> R (vm_kill t h) (s_kill t s) xs /\ tmp (vm_kill t h) = tmp h.
+Proof.
+  intro HR. unfold vm_kill, s_kill.
+  destruct (lookup t (vms h)) as [rc|] eqn:El.
+  - (* alive *)
+    assert (Hin : In (t, rc) (vms h)) by now apply lookup_in.
+    assert (Hrc : get (cells (hc h)) rc = Some (VPtr t)) by now apply (r_vms _ _ _ HR).
+    destruct (destroy_ok (hc h) rc (r_good _ _ _ HR)) as (G & C & Nc); [unfold live; congruence|].
+    split; [|reflexivity].
+    assert (Hother : forall t' rc', In (t', rc') (del t (vms h)) -> In (t', rc') (vms h) /\ rc' <> rc).
+    { intros t' rc' H. apply in_del in H. destruct H as [H Hn]. split; [exact H|].
+      intro E. subst. apply Hn. eapply vms_same_cell; eauto. }
+    constructor; sp.
+    + exact G.
+    + apply (r_nrec _ _ _ HR).
+    + apply (r_ncall _ _ _ HR).
+    + rewrite map_fst_del. now rewrite (r_alive _ _ _ HR).
+    + rewrite (r_ninst _ _ _ HR). symmetry. eapply length_del; eauto. eapply vms_nodup_fst; eauto.
+    + eapply recs_transfer; [apply (r_recs _ _ _ HR)|].
+      intros r a k rf Hk. apply cell_ok_frame; [reflexivity|].
+      rewrite C, gso; [reflexivity|]. intro E. subst. eapply (r_d_vr _ _ _ HR); eauto.
+    + intros t' rc' H. destruct (Hother _ _ H) as [H1 H2]. rewrite C, gso by exact H2.
+      now apply (r_vms _ _ _ HR).
+    + apply nodup_delN. apply (r_nd_alive _ _ _ HR).
+    + intros t' H. apply in_delN in H. apply (r_pending _ _ _ HR). tauto.
+    + intros c rf H. eapply cell_ok_frame; [reflexivity| |apply (r_xs _ _ _ HR); exact H].
+      rewrite C, gso; [reflexivity|]. intro E. subst.
+      destruct (r_d_xs _ _ _ HR _ _ H) as [H1 _]. eapply H1; eauto.
+    + apply (r_d_recs _ _ _ HR).
+    + intros t' r a c H. destruct (Hother _ _ H) as [H1 _]. eapply (r_d_vr _ _ _ HR); eauto.
+    + intros c rf H. destruct (r_d_xs _ _ _ HR _ _ H) as [H1 H2]. split; [|exact H2].
+      intros t' H'. destruct (Hother _ _ H') as [H3 _]. eapply H1; eauto.
+    + intros c p H. unfold holds in H. rewrite C, get_set in H.
+      destruct (c =? rc); [discriminate|]. now apply (r_ptr_fresh _ _ _ HR c).
+    + apply (r_done_fresh _ _ _ HR).
+    + intros t' H. apply in_delN in H. apply (r_alive_fresh _ _ _ HR). tauto.
+    + apply (r_rec_keys _ _ _ HR).
+    + apply (r_rec_fresh _ _ _ HR).
+  - (* no such thread *)
+    split; [|reflexivity].
+    assert (Hn : ~ In t (alive s)).
+    { rewrite <- (r_alive _ _ _ HR). now apply lookup_none_notin. }
+    rewrite (delN_notin _ _ Hn), store_eta. exact HR.
+Qed.
+
+(* ---- a thread ends ------------------------------------------------------------------------ *)
+Definition delivered (r : option dval) : val :=
+  match r with Some d => VD d | None => VD DNil end.
+
+Lemma vm_end_R t r h s xs : R h s xs -> R (vm_end t r h) (s_end t r s) xs /\ tmp (vm_end t r h) = tmp h.
+Proof.
+  intro HR. unfold vm_end, s_end.
+  destruct (lookup t (vms h)) as [rc|] eqn:El.
+  - assert (Hin : In (t, rc) (vms h)) by now apply lookup_in.
+    assert (Hal : memN t (alive s) = true) by (apply (alive_iff _ _ _ t HR); now exists rc).
+    rewrite Hal.
+    assert (Hrc : get (cells (hc h)) rc = Some (VPtr t)) by now apply (r_vms _ _ _ HR).
+    rewrite Hrc. split; [|reflexivity].
+    pose proof (r_good _ _ _ HR) as Hg.
+    destruct (re_cell _ _ (proj2 Hg) rc t) as [l [Hl _]]; [discriminate|exact Hrc|].
+    assert (Hpend : lookup t (done s) = None) by (apply (r_pending _ _ _ HR); now apply memN_in).
+    (* the delivery *)
+    set (c1 := match r with
+               | Some d => set_value_ref (hc h) t d rc
+               | None => ptr_clear (hc h) t
+               end).
+    assert (D : good c1 /\ ncell c1 = ncell (hc h) /\
+                forall k, (holds (hc h) k t -> k <> rc -> get (cells c1) k = Some (delivered r)) /\
+                          (holds (hc h) k t -> exists d', get (cells c1) k = Some (VD d')) /\
+                          (~ holds (hc h) k t -> get (cells c1) k = get (cells (hc h)) k)).
+    { unfold c1. destruct r as [d|].
+      - exact (set_value_ref_ok (hc h) t d rc l Hg Hl).
+      - destruct (ptr_clear_ok (hc h) t l Hg Hl) as (G & Nc & C). split; [exact G|]. split; [exact Nc|].
+        intro k. destruct (C k) as [C1 C2]. repeat split; auto.
+        intro Hk. exists DNil. auto. }
+    destruct D as (G1 & N1 & D).
+    destruct (D rc) as (_ & [d' Hrc1] & _); [exact Hrc|].
+    destruct (destroy_ok c1 rc G1) as (G2 & C2 & N2); [unfold live; congruence|].
+    (* what a tracked cell other than rc holds afterwards *)
+    assert (Hcell : forall k rf, k <> rc -> cell_ok (hc h) s k rf ->
+              cell_ok (destroy c1 rc) (mkStore (delN t (alive s)) ((t, r) :: done s) (srecs s) (snrec s) (sncall s)) k rf).
+    { intros k rf Hk Hok. unfold cell_ok in *. rewrite C2, gso by exact Hk.
+      destruct (D k) as (Dv & _ & Dn). unfold sref_val in *. sp.
+      destruct rf as [t'|].
+      - cbn [lookup]. destruct (N.eqb_spec t t') as [<-|Hn].
+        + rewrite Hpend in Hok. rewrite Dv by (exact Hok || exact Hk). destruct r; reflexivity.
+        + rewrite Dn; [exact Hok|]. unfold holds. rewrite Hok.
+          destruct (lookup t' (done s)) as [[d0|]|]; congruence.
+      - rewrite Dn; [exact Hok|]. unfold holds. rewrite Hok. discriminate. }
+    assert (Hother : forall t' rc', In (t', rc') (del t (vms h)) ->
+                     In (t', rc') (vms h) /\ rc' <> rc /\ t' <> t).
+    { intros t' rc' H. apply in_del in H. destruct H as [H Hn]. split; [exact H|]. split; [|exact Hn].
+      intro E. subst. apply Hn. eapply vms_same_cell; eauto. }
+    constructor; sp.
+    + exact G2.
+    + apply (r_nrec _ _ _ HR).
+    + apply (r_ncall _ _ _ HR).
+    + rewrite map_fst_del. now rewrite (r_alive _ _ _ HR).
+    + rewrite (r_ninst _ _ _ HR). symmetry. eapply length_del; eauto. eapply vms_nodup_fst; eauto.
+    + eapply recs_transfer; [apply (r_recs _ _ _ HR)|].
+      intros r0 a k rf Hk. apply Hcell. intro E. subst. eapply (r_d_vr _ _ _ HR); eauto.
+    + intros t' rc' H. destruct (Hother _ _ H) as (H1 & H2 & H3). rewrite C2, gso by exact H2.
+      destruct (D rc') as (_ & _ & Dn). rewrite Dn; [now apply (r_vms _ _ _ HR)|].
+      unfold holds. rewrite (r_vms _ _ _ HR _ _ H1). congruence.
+    + apply nodup_delN. apply (r_nd_alive _ _ _ HR).
+    + intros t' H. apply in_delN in H. destruct H as [H Hn]. cbn [lookup].
+      destruct (N.eqb_spec t t'); [congruence|]. now apply (r_pending _ _ _ HR).
+    + intros c rf H. apply Hcell; [|apply (r_xs _ _ _ HR); exact H]. intro E. subst.
+      destruct (r_d_xs _ _ _ HR _ _ H) as [H1 _]. eapply H1; eauto.
+    + apply (r_d_recs _ _ _ HR).
+    + intros t' r0 a c H. destruct (Hother _ _ H) as [H1 _]. eapply (r_d_vr _ _ _ HR); eauto.
+    + intros c rf H. destruct (r_d_xs _ _ _ HR _ _ H) as [H1 H2]. split; [|exact H2].
+      intros t' H'. destruct (Hother _ _ H') as [H3 _]. eapply H1; eauto.
+    + intros c p H. unfold holds in H. rewrite C2, get_set in H.
+      destruct (c =? rc); [discriminate|].
+      destruct (D c) as (_ & Dh & Dn).
+      destruct (N.eq_dec p t) as [->|Hp].
+      * apply (r_ptr_fresh _ _ _ HR rc). exact Hrc.
+      * apply (r_ptr_fresh _ _ _ HR c). unfold holds. rewrite <- Dn; [exact H|].
+        intro Hh. destruct (Dh Hh) as [d0 E]. congruence.
+    + intros t' x. cbn [lookup]. destruct (N.eqb_spec t t') as [<-|Hn].
+      * intros _. apply (r_alive_fresh _ _ _ HR). now apply memN_in.
+      * apply (r_done_fresh _ _ _ HR).
+    + intros t' H. apply in_delN in H. apply (r_alive_fresh _ _ _ HR). tauto.
+    + apply (r_rec_keys _ _ _ HR).
+    + apply (r_rec_fresh _ _ _ HR).
+  - split; [|reflexivity].
+    assert (Hn : memN t (alive s) = false).
+    { destruct (memN t (alive s)) eqn:E; [|reflexivity].
+      apply (alive_iff _ _ _ t HR) in E. destruct E as [rc H].
+      apply (vms_lookup_in _ _ _ t rc HR) in H. congruence. }
+    rewrite Hn. exact HR.
+Qed.
+
+(* ---- the host call: beginning ------------------------------------------------------------- *)
+Lemma call_begin_nolabel_R h s :
+  R h s [] -> R (fst (call_begin false h)) (fst (s_begin false s)) [] /\
+              snd (call_begin false h) = snd (s_begin false s).
+Proof.
+  intro HR. unfold call_begin, s_begin. sp. split; [|apply (r_ncall _ _ _ HR)].
+  constructor; sp; try (now destruct HR).
+  - rewrite (r_ncall _ _ _ HR). reflexivity.
+  - cbn. apply (r_ninst _ _ _ HR).
+  - intros c p H. pose proof (r_ptr_fresh _ _ _ HR c p H). lia.
+  - intros t x H. pose proof (r_done_fresh _ _ _ HR t x H). lia.
+  - intros t H. pose proof (r_alive_fresh _ _ _ HR t H). lia.
+Qed.
+
+Lemma call_begin_R h s :
+  R h s [] ->
+  let h' := fst (call_begin true h) in
+  let t := snd (call_begin true h) in
+  R h' (fst (s_begin true s)) [(tmp h', SCall t)] /\ t = snd (s_begin true s) /\ t = ncall h.
+Proof.
+  intro HR. unfold call_begin, s_begin.
+  pose proof (r_good _ _ _ HR) as G0.
+  destruct (alloc_ok (hc h) DNil G0) as (G1 & S1 & C1 & N1).
+  destruct (alloc (hc h) (VD DNil)) as [c1 rc] eqn:E1. cbn [fst snd] in *. subst rc.
+  destruct (alloc_ok c1 DNil G1) as (G2 & S2 & C2 & N2).
+  destruct (alloc c1 (VD DNil)) as [c2 tm] eqn:E2. cbn [fst snd] in *. subst tm.
+  set (rc := ncell (hc h)) in *. set (tm := ncell c1) in *.
+  assert (Htm : tm = rc + 1) by (unfold tm; exact N1).
+  assert (Hc2 : forall k, get (cells c2) k =
+            if k =? tm then Some (VD DNil) else if k =? rc then Some (VD DNil) else get (cells (hc h)) k).
+  { intro k. rewrite C2, C1, !get_set. reflexivity. }
+  set (t := ncall h).
+  assert (Hnoh : forall k, ~ holds c2 k t).
+  { intros k Hk. unfold holds in Hk. rewrite Hc2 in Hk.
+    destruct (k =? tm); [discriminate|]. destruct (k =? rc); [discriminate|].
+    pose proof (r_ptr_fresh _ _ _ HR k t Hk). unfold t in *. lia. }
+  destruct (new_pointer_ok c2 tm t DNil G2) as (G3 & C3 & N3).
+  { rewrite Hc2, N.eqb_refl. reflexivity. }
+  { exact Hnoh. }
+  destruct (copy_assign_ok (new_pointer c2 tm t) rc tm (VPtr t) G3) as (G4 & C4 & N4).
+  { lia. }
+  { unfold live. rewrite C3, gso by lia. rewrite Hc2.
+    destruct (N.eqb_spec rc tm); [lia|]. rewrite N.eqb_refl. discriminate. }
+  { rewrite C3. apply gss. }
+  set (c4 := copy_assign (new_pointer c2 tm t) rc tm) in *.
+  assert (Hc4 : forall k, get (cells c4) k =
+            if k =? rc then Some (VPtr t) else if k =? tm then Some (VPtr t) else get (cells (hc h)) k).
+  { intro k. rewrite C4, C3, !get_set, Hc2.
+    destruct (k =? rc); [reflexivity|]. destruct (k =? tm); reflexivity. }
+  assert (Hfresh : forall k, live (hc h) k -> k <> rc /\ k <> tm).
+  { intros k Hk. destruct G0 as [_ [_ _ Hf]]. unfold live in Hk.
+    split; intro E; apply Hk; apply Hf; unfold rc in *; lia. }
+  assert (Hold : forall k, live (hc h) k -> get (cells c4) k = get (cells (hc h)) k).
+  { intros k Hk. destruct (Hfresh k Hk) as [H1 H2]. rewrite Hc4.
+    destruct (N.eqb_spec k rc); [contradiction|]. destruct (N.eqb_spec k tm); [contradiction|reflexivity]. }
+  destruct (tracked_live _ _ _ HR) as (Lv & Lr & _).
+  assert (Hnd : lookup t (done s) = None).
+  { destruct (lookup t (done s)) eqn:E; [|reflexivity].
+    pose proof (r_done_fresh _ _ _ HR _ _ E). rewrite <- (r_ncall _ _ _ HR) in H. unfold t in H. lia. }
+  assert (Hna : ~ In t (alive s)).
+  { intro H. pose proof (r_alive_fresh _ _ _ HR _ H). rewrite <- (r_ncall _ _ _ HR) in H0. unfold t in H0. lia. }
+  sp. split; [|split; [apply (r_ncall _ _ _ HR)|reflexivity]].
+  constructor; sp.
+  - exact G4.
+  - apply (r_nrec _ _ _ HR).
+  - rewrite (r_ncall _ _ _ HR). reflexivity.
+  - rewrite map_app. cbn. rewrite (r_alive _ _ _ HR). unfold t. now rewrite (r_ncall _ _ _ HR).
+  - rewrite app_length. cbn. rewrite (r_ninst _ _ _ HR). lia.
+  - eapply recs_transfer; [apply (r_recs _ _ _ HR)|].
+    intros r a k rf Hk. apply cell_ok_frame; [reflexivity|]. apply Hold. eapply Lr; eauto.
+  - intros t' rc' H. apply in_app_or in H. destruct H as [H|[E|[]]].
+    + rewrite Hold by (eapply Lv; eauto). now apply (r_vms _ _ _ HR).
+    + injection E as <- <-. rewrite Hc4, N.eqb_refl. reflexivity.
+  - rewrite <- (r_ncall _ _ _ HR). apply nodup_snoc; [apply (r_nd_alive _ _ _ HR)|exact Hna].
+  - intros t' H. apply in_app_or in H. destruct H as [H|[E|[]]].
+    + now apply (r_pending _ _ _ HR).
+    + rewrite <- E, <- (r_ncall _ _ _ HR). exact Hnd.
+  - intros c rf [E|[]]. injection E as <- <-. unfold cell_ok, sref_val. sp. fold t. rewrite Hnd.
+    rewrite Hc4. destruct (tm =? rc); [reflexivity|]. now rewrite N.eqb_refl.
+  - apply (r_d_recs _ _ _ HR).
+  - intros t' r a c H Hr. apply in_app_or in H. destruct H as [H|[E|[]]].
+    + eapply (r_d_vr _ _ _ HR); eauto.
+    + injection E as <- <-. apply (Lr _ _ _) in Hr. apply Hfresh in Hr. tauto.
+  - intros c rf [E|[]]. injection E as <- <-. split.
+    + intros t' H. apply in_app_or in H. destruct H as [H|[E|[]]].
+      * apply Lv in H. apply Hfresh in H. tauto.
+      * injection E as _ E. lia.
+    + intros r a H. apply Lr in H. apply Hfresh in H. tauto.
+  - intros c p H. unfold holds in H. rewrite Hc4 in H.
+    destruct (c =? rc); [injection H as <-; unfold t; lia|].
+    destruct (c =? tm); [injection H as <-; unfold t; lia|].
+    pose proof (r_ptr_fresh _ _ _ HR c p H). lia.
+  - intros t' x H. pose proof (r_done_fresh _ _ _ HR t' x H). lia.
+  - intros t' H. apply in_app_or in H. destruct H as [H|[E|[]]].
+    + pose proof (r_alive_fresh _ _ _ HR t' H). lia.
+    + lia.
+  - apply (r_rec_keys _ _ _ HR).
+  - apply (r_rec_fresh _ _ _ HR).
+Qed.
